@@ -408,7 +408,7 @@ class Vector():
 				) from exc
 
 		# Now decide dtype using the *logical* type, not the callable
-		if isinstance(py_target_type, type):
+		if isinstance(py_target_type, type) and not any(isinstance(x, Vector) for x in out):
 			new_dtype = DataType(py_target_type, nullable=has_none)
 		else:
 			# user gave a weird callable as target_type, infer from result
